@@ -281,6 +281,7 @@ Lemma recv_body_ok cfg e lie o p pl f t s t' s1 :
              (sweep_moves cfg (t_ddenom t) prior ++ [credit_move cfg p t] ++ ams ++ [mv]).
 Proof.
   unfold recv_body. intros H. cbn zeta.
+  apply mbind_ok in H as (prior0 & s' & H0 & H). unfold read_balance in H0. inversion H0; subst prior0 s'; clear H0.
   set (prior := bal (ps_l s) (cfg_orbiter cfg) (t_ddenom t) + lie) in *.
   apply mbind_ok in H as (u1 & sa & H1 & H).
   apply mbind_ok in H as (u2 & sb & H2 & H).
@@ -332,6 +333,7 @@ Record transfer (cfg : config) (e : env) (w : world) (p : packet) (lie : Z) (r :
                                        ++ [credit_move cfg p t] ++ ams ++ [mv]) |};
   tr_moves : rr_moves r = sweep_moves cfg (t_ddenom t) (bal (w_l w) (cfg_orbiter cfg) (t_ddenom t) + lie)
                           ++ [credit_move cfg p t] ++ ams ++ [mv];
+  tr_ghost : rr_stat r = stat_of t' f;
   tr_trace : rr_trace r = map (fun c => (c, true))
                               (sweep_calls (t_ddenom t) (bal (w_l w) (cfg_orbiter cfg) (t_ddenom t) + lie)
                                ++ [CWrapped] ++ acalls ++ fcalls ++ [CEmit "EventPayloadProcessed"]);
@@ -380,10 +382,10 @@ Proof.
   exists denom, amount, sender, receiver, pl, f, t, t', a, cp, acalls, fcalls, ams, mv, o'.
   split; auto.
   - apply Z.ltb_ge in Hpass. exact Hpass.
-  - cbn [result_of rr_world]. f_equal. rewrite (ran_ledger _ _ _ _ Hall). cbn [initial_pst ps_l].
+  - cbn [with_stat result_of rr_world]. f_equal. rewrite (ran_ledger _ _ _ _ Hall). cbn [initial_pst ps_l].
     rewrite app_nil_r. reflexivity.
-  - cbn [result_of rr_moves]. rewrite (ran_moves _ _ _ _ Hall). cbn [initial_pst ps_moves].
+  - cbn [with_stat result_of rr_moves]. rewrite (ran_moves _ _ _ _ Hall). cbn [initial_pst ps_moves].
     rewrite !app_nil_r, rev_involutive. reflexivity.
-  - cbn [result_of rr_trace]. rewrite (ran_trace _ _ _ _ Hall). cbn [initial_pst ps_trace].
+  - cbn [with_stat result_of rr_trace]. rewrite (ran_trace _ _ _ _ Hall). cbn [initial_pst ps_trace].
     rewrite app_nil_r, rev_involutive, <- !app_assoc. reflexivity.
 Qed.
